@@ -88,8 +88,8 @@ def main():
        "add_only": True,
      },
      "engines": [
-       {"name":"engine-A","path":"sim/harness/enga","serves_properties":[k for k,c in checks.items() if c["engine"]=="A"],"kind_free_text":"in-process simulation of the real generator (instrumented copy of the current tree): map-iteration order, tick clock, tasks, stdout, fs effects behind seams owned by sim/simrt"},
-       {"name":"engine-B","path":"sim/harness/engb","serves_properties":[k for k,c in checks.items() if c["engine"]=="B"],"kind_free_text":"batch-compiles the generated parsers (real go build / node) and drives them under a simulated environment: token feed with faults, aborted parses, seeded context interleavings"},
+       {"name":"engine-A","path":"sim/harness/enga","serves_properties":[k for k,c in checks.items() if c["engine"]=="A"],"kind_free_text":"in-process simulation of the real generator (instrumented copy of the current tree): map-iteration order, tick clock (string copies charged), tasks, stdout, fs effects behind seams owned by sim/simrt; -g draws through a stand-in `dot` child process; some cases also go through the uninstrumented CLI"},
+       {"name":"engine-B","path":"sim/harness/engb","serves_properties":[k for k,c in checks.items() if c["engine"]=="B"],"kind_free_text":"batch-compiles the generated parsers (real go build / node) and drives them under a simulated environment: token feed with faults, aborted parses, seeded context interleavings, nested parses from actions, parses during package initialisation, million-round soaks"},
      ],
      "checks": [],
      "not_applicable": not_applicable + [dict(property_id=p, reason="check not built yet in this round (planned, see DESIGN.md section 5); not claimed") for p in pending if p not in checks],
